@@ -501,6 +501,17 @@ func NewActor(name string, opt ...nodeenrollment.Option) *Actor {
 // FillActor derives the convenience fields of an actor from its credentials.
 func FillActor(a *Actor) { a.fill() }
 
+// NewActorOn is NewActor with a caller-chosen node-side storage.
+func NewActorOn(st nodeenrollment.Storage, name string, opt ...nodeenrollment.Option) *Actor {
+	creds, err := types.NewNodeCredentials(context.Background(), st, opt...)
+	if err != nil {
+		panic(fmt.Sprintf("NewNodeCredentials: %v", err))
+	}
+	a := &Actor{Name: name, Store: st, Opts: opt, Creds: creds}
+	a.fill()
+	return a
+}
+
 func (a *Actor) fill() {
 	k, err := x509.ParsePKCS8PrivateKey(a.Creds.CertificatePrivateKeyPkcs8)
 	if err != nil {
